@@ -96,6 +96,8 @@ FIELD_SORTS = {
     "getattr": FN, "setattr": FN, "post_setattr": FN, "py_post_setattr": Obj, "validate": FN, "py_validate": Obj,
     "default_value_type": INT, "default_value": Obj, "delegate_name": Obj, "delegate_prefix": Obj,
     "delegate_attr_name": FN, "handler": Obj,
+    # PyTypeObject (only ever passed on to message formatting)
+    "tp_name": Obj,
 }
 OWNING_FIELDS = {"ctrait_dict", "itrait_dict", "notifiers", "obj_dict", "py_post_setattr", "py_validate", "default_value",
                  "delegate_name", "delegate_prefix", "handler"}
